@@ -222,7 +222,13 @@ def install(repo=None):
     _install_sqlalchemy()
     sys.meta_path.insert(0, _Finder())
 
+    import logging
+    logging.getLogger().addHandler(logging.NullHandler())
+    logging.lastResort = None
     import warnings
+    warnings.filterwarnings('ignore', category=UserWarning)
+    warnings.filterwarnings('ignore', category=RuntimeWarning)
+    warnings.filterwarnings('ignore', category=ResourceWarning)
     warnings.filterwarnings('ignore', category=DeprecationWarning)
     try:
         from sqlalchemy.exc import SAWarning
